@@ -18,6 +18,7 @@ func checkC20(p *load.Program, r *kit.Report) {
 	r.Rule("LOCKSET", "lookup/list/lastSaved and the Score/LastTime of stored peers are accessed only under the repository lock (constructor and LoadSeeds, which runs before any thread exists, exempt)", 15)
 	r.Rule("PAIRED-UPDATE", "every append to list is followed on the same path by lookup[address] = the same peer; in Add both are behind the lookup-miss edge", 3)
 	r.Rule("SCORE-SHAPE", "UpdateScore stores Score + delta into the looked-up peer; Get keeps a peer exactly when Score >= minScore and (maxScore == -1 or Score <= maxScore)", 2)
+	r.Rule("NEW-STATE", "Get/Count answer from list/lookup and the peers' Score/LastTime only; a field added since the reference tree that they read is rewritten after every change of that data", 1)
 	r.Rule("CODEC-SYM", "Peer.write + Save's header and readPeer + Load's header agree item by item; readPeer accepts every address length the writer emits (0 included)", 3)
 	r.Rule("ALLOC-BOUND", "sizes decoded from the peers file (count, address size) never size an allocation without an upper bound derived from the data present and a non-negative test", 1)
 	r.Rule("MUST-PASS", "Load keeps every fully decoded peer: a decoding error ends the loop without an error return; Save writes on every successful path unless a dirty flag that every mutator sets says nothing changed", 2)
@@ -39,6 +40,27 @@ func checkC20(p *load.Program, r *kit.Report) {
 	}
 	if f := p.Func(R, "NewPeerRepository"); f != nil {
 		methods = append(methods, f)
+	}
+	{
+		var readers []*ssa.Function
+		for _, n := range []string{"StoragePeerRepository.Get", "StoragePeerRepository.Count"} {
+			if f := p.Func(R, n); f != nil {
+				readers = append(readers, f)
+			}
+		}
+		under := map[*types.Var]bool{listF: true, lookupF: true, pf("Score"): true, pf("LastTime"): true}
+		checkNewState(p, r, "NEW-STATE", "StoragePeerRepository/derived-state", R, "StoragePeerRepository", readers, pkgFuncs(p, R), func(g *ssa.Function) []ssa.Instruction {
+			var out []ssa.Instruction
+			if fname(g) == "NewPeerRepository" {
+				return nil
+			}
+			for _, w := range kit.DirectWrites(g) {
+				if under[w.Field] && !kit.IsFresh(w.Base) {
+					out = append(out, w.Instr)
+				}
+			}
+			return out
+		})
 	}
 	checkGuarded(p, r, "LOCKSET", methods, []guardedBy{
 		{Field: listF, Mutex: "lock"}, {Field: lookupF, Mutex: "lock"}, {Field: sp("lastSaved"), Mutex: "lock"},
@@ -110,6 +132,33 @@ func checkC20(p *load.Program, r *kit.Report) {
 				miss := mapLookupGuards(f, lookupF)
 				if ok, _ := kit.DominatedByEdges(f, w.Instr, edgesOf(miss, false), nil, p.Pos); !ok || len(miss) == 0 {
 					bad = "Add appends without testing that the address is not yet in lookup: duplicates"
+				}
+				// test and insert are one critical section: the repository lock is not released
+				// between the miss and the append (two concurrent Adds of one address would both
+				// see the miss and both insert)
+				if bad == "" {
+					li := kit.Lockset(f, nil)
+					lock := li.Key(f.Params[0]) + "." + curName(p, "lock")
+					rel := lockReleases(f, lock)
+					for _, g := range miss {
+						// from the map read that the test is about
+						var lookup ssa.Instruction
+						if e, ok := g.If.Cond.(*ssa.Extract); ok {
+							lookup, _ = e.Tuple.(ssa.Instruction)
+						}
+						if lookup == nil {
+							continue
+						}
+						rr := kit.Reach(f, kit.After(lookup), kit.Opts{StopAt: kit.InstrSet(w.Instr)})
+						for _, x := range rel {
+							if _, isDefer := x.(*ssa.Defer); isDefer {
+								continue
+							}
+							if rr.Has(x) && kit.Reach(f, kit.After(x), kit.Opts{}).Has(w.Instr) {
+								bad = "the repository lock is released at " + posOf(p, x) + " between the test that the address is unknown and the insert: two concurrent Adds of the same address both insert it (held once no longer holds)"
+							}
+						}
+					}
 				}
 				// lookup keyed by the parameter address
 			}
